@@ -1,6 +1,6 @@
 #!/bin/sh
 # tools/seedtest.sh <PROP> <seed_dir> <name> : confirm a seeded change in a scratch worktree, then run our check against it on /repo
-# (applies the patch to /repo, runs ./check, reverts immediately).
+# (the check reads the scratch worktree through PYVC_REPO; /repo is not touched).
 PROP=$1; SD=$2; NAME=$3
 WT=/tmp/wt_confirm_$$
 cd /verif
@@ -11,11 +11,10 @@ echo "== demo on clean tree"; (cd $WT && PYTHONPATH=$WT timeout 300 /venv/bin/py
 git -C $WT apply $SD/patch.diff || { echo "patch does not apply"; git -C /repo worktree remove --force $WT; exit 8; }
 echo "== demo with change"; (cd $WT && PYTHONPATH=$WT timeout 300 /venv/bin/python $SD/demo.py >/tmp/demo_out_$$ 2>&1); D1=$?
 echo "== tests with change"; T=$(cd $WT && PYTHONPATH=$WT /venv/bin/python -m pytest -q -p no:cacheprovider molli_test 2>&1 | tail -1)
-git -C /repo worktree remove --force $WT
 echo "demo clean=$D0 changed=$D1 tests: $T"
-git -C /repo apply $SD/patch.diff || exit 7
-echo "== our check"; PYVC_SCRATCH_EVIDENCE=1 ./check $PROP > /tmp/check_out_$$ 2>&1; C=$?
-git -C /repo checkout -- .
+# the check runs against the scratch worktree (PYVC_REPO), /repo itself is never modified
+echo "== our check"; PYVC_REPO=$WT PYVC_SCRATCH_EVIDENCE=1 ./check $PROP > /tmp/check_out_$$ 2>&1; C=$?
+git -C /repo worktree remove --force $WT
 grep -E "^VIOLATION|^UNDECIDED|^CHECKER|^$PROP:" /tmp/check_out_$$ | head -8
 echo "check exit=$C"
 mkdir -p seeded/$NAME
